@@ -732,6 +732,7 @@ def step (st : St) (line : String) : St × String :=
         | "C06" => Mfull.wC06 p ops
         | "C10" => Mfull.wC10 p ops
         | "C11" => Mfull.wC11 p ops
+        | "C12" => Mfull.wC12 sp p names
         | _ => false
       (st, if r then "yes" else "no")
     | _, _, _ => (st, "bad-type")
